@@ -242,6 +242,22 @@ def run(ctx):
                               "wallet-present.jsonl", replay_text(i))
     ctx.oblige("oracle:api-handlers/wallet/tampered-revocations(impl)", edge_bad == 0 and (n_edge > 0 or bool(ctx.replay)), f"{edge_bad} wrong of {n_edge}")
 
+    # a credential whose network revocation was registered is never reported valid, whatever credentialStatus it carries
+    nr, registered = [], set()
+    for i, op in enumerate(ops):
+        if op.get("op") == "reset":
+            registered = set()
+        elif op.get("op") == "revoke" and op.get("registered"):
+            registered.add(op["id"])
+        elif op.get("op") == "vc" and (op.get("doc") or {}).get("id") in registered:
+            nr.append(i)
+    nr_ok = [i for i in nr if impl[i].startswith("ok")]
+    for i in nr_ok:
+        st = (ops[i].get("doc") or {}).get("statuses") or []
+        ctx.violation("C01:network-revoked-credential-reported-valid:" + ("with-credentialStatus" if st else "no-credentialStatus"),
+                      f"{ops[i]['label']} is reported valid although its revocation was registered on this node", "network-revoked.jsonl", replay_text(i))
+    ctx.oblige("oracle:network-revoked-never-valid(impl)", not nr_ok and (len(nr) > 0 or bool(ctx.replay)), f"{len(nr_ok)} accepted of {len(nr)}")
+
     # strict mode: a document that brings its own (unlisted) context is never reported valid
     rc = [i for i, op in enumerate(ops) if op.get("mut") == "remote-context"]
     rc_ok = [i for i in rc if impl[i].startswith("ok")]
